@@ -66,9 +66,12 @@ theorem maximal_run_finishes (ca cb : Nat) (prog : List SAct) (st : St) (h : Rea
 def topologyOk : Bool :=
   -- the generator side never reads the connection, the receiver side never writes it
   generatorReads == [] && receiverWrites == [] && !generatorWrites.isEmpty && !receiverReads.isEmpty &&
-  -- blocking primitives of the receiving code: the two goroutines of Do (errgroup) and waitFor's result channel; nothing else
-  receiverPrimitives == ["Do: eg.Go", "Do: eg.Go", "Do: Wait on eg", "waitFor: make-chan", "waitFor: go", "waitFor: chan-send",
-    "waitFor: select", "waitFor: chan-recv", "waitFor: chan-recv"] &&
+  -- blocking primitives of the receiving code: the two goroutines of Do (errgroup), waitFor's result channel, and the wait
+  -- group `bg` that only the *closing of the destination root* waits on, in a goroutine of its own (D54: the root stays open
+  -- until both goroutines of Do have finished); nothing the session's progress depends on
+  receiverPrimitives == ["CloseWhenDone: go", "CloseWhenDone: Wait on rt.bg", "Do: eg.Go", "Do: eg.Go", "Do: Wait on eg",
+    "waitFor: make-chan", "waitFor: go", "waitFor: chan-send", "waitFor: select", "waitFor: chan-recv", "waitFor: chan-recv",
+    "field bg *sync.WaitGroup", "field bg sync.WaitGroup"] &&
   -- of the sending code: the per-file hash helper (joined before the trailer is written) and the two name-lookup Once values
   senderPrimitives == ["sendFile: eg.Go", "sendFile: Wait on eg", "walkFn: once.Do", "walkFn: once.Do",
     "var lookupOnce sync.Once", "var lookupGroupOnce sync.Once"] &&
